@@ -3,6 +3,10 @@ HOSTILE = [")", "}", "(", "{", '"', "'", ",", "#", "$", "%", ".", ":", "/", "*",
            " ", "a", "1", "-", "+", "=", "<", ">", "!", ";", "\\", "[", "]", "_", "@", "&", "|", "^", "~", "`", "?"]
 
 
+# the quick tier's alphabet: the characters that have found something so far plus the most structural ones
+HOSTILE_QUICK = [")", "}", "(", "{", '"', ",", "#", "$", ".", ":", "/", "*", "\r", "\n", "\t", "\0", "é", "𝄞", "\u212a", " ", "-", "!", "_", "a"]
+
+
 def single_char_mutants(text, alphabet=HOSTILE):
     """All single-character deletions, insertions and replacements (complete for the given alphabet)."""
     n = len(text)
